@@ -11,7 +11,7 @@ import hashlib, json, os, shutil, subprocess, sys, time, glob, re
 VERIF = os.path.dirname(os.path.abspath(__file__))
 REPO = os.environ.get("VERIF_REPO", "/repo")
 SCRATCH_ROOT = os.environ.get("VERIF_SCRATCH", "/dev/shm/verif-build")
-NWORKERS = int(os.environ.get("VERIF_WORKERS", "16"))
+NWORKERS = int(os.environ.get("VERIF_WORKERS", "8"))
 
 sys.path.insert(0, VERIF)
 from proptable import PROPS, GROUPS  # noqa: E402
